@@ -67,6 +67,49 @@ def confirm(d):
     return res
 
 
+def confirm_refactor(d):
+    """behaviour-preserving refactoring: demo prints the same digest (stdout identical, exit 0) without and with the
+    patch, and the baseline tests are unchanged"""
+    patch = os.path.abspath(os.path.join(d, "patch.diff"))
+    demo = os.path.abspath(os.path.join(d, "demo.py"))
+    wt = tempfile.mkdtemp(prefix="seedwt_", dir="/tmp")
+    os.rmdir(wt)
+    res = {}
+    try:
+        rc, out = sh(f"git -C /repo worktree add -q --detach {wt} HEAD")
+        assert rc == 0, out
+        env = dict(os.environ, PYTHONPATH=f"{wt}/src", PYTHONWARNINGS="ignore")
+        p0 = subprocess.run(f"/venv/bin/python {demo}", shell=True, cwd="/", env=env, capture_output=True, text=True, timeout=3000)
+        rc, out = sh(f"git apply {patch}", cwd=wt)
+        res["applies"] = rc == 0
+        if rc != 0:
+            res["apply_error"] = out[-400:]
+            return res
+        p1 = subprocess.run(f"/venv/bin/python {demo}", shell=True, cwd="/", env=env, capture_output=True, text=True, timeout=3000)
+        res["demo_without"] = {"exit": p0.returncode, "tail": p0.stdout[-300:]}
+        res["demo_with"] = {"exit": p1.returncode, "tail": p1.stdout[-300:]}
+        res["same_output"] = p0.stdout == p1.stdout
+        rc, out = sh(f"/venv/bin/python -m pytest -q -p no:cacheprovider --timeout=900 --continue-on-collection-errors -n 8 --junitxml={wt}/junit.xml tests", cwd=wt, env=env, timeout=3000)
+        base = json.load(open("/root/.vp/BASELINE.json"))
+        got = {}
+        for tc in ET.parse(f"{wt}/junit.xml").iter("testcase"):
+            name = tc.get("classname") + "::" + tc.get("name")
+            st = "pass"
+            for ch in tc:
+                if ch.tag in ("failure", "error"):
+                    st = "fail"
+                if ch.tag == "skipped":
+                    st = "skip"
+            got[name] = st
+        res["baseline_tests_broken"] = [n for n in base["stable_pass"] if got.get(n) != "pass"]
+        res["tests_summary"] = out.strip().split("\n")[-1][-200:]
+        res["confirmed"] = (p0.returncode == 0 and p1.returncode == 0 and res["same_output"] and not res["baseline_tests_broken"] and bool(got))
+    finally:
+        sh(f"git -C /repo worktree remove --force {wt}")
+        sh(f"rm -rf {wt}")
+    return res
+
+
 def checks(d):
     patch = os.path.abspath(os.path.join(d, "patch.diff"))
     rc, out = sh("git -C /repo status --porcelain")
@@ -94,6 +137,9 @@ def main():
         r = {}
         if mode in ("confirm", "all"):
             r["confirm"] = confirm(d)
+            json.dump(r["confirm"], open(os.path.join(d, "confirm.json"), "w"), indent=1)
+        if mode == "confirm-refactor":
+            r["confirm"] = confirm_refactor(d)
             json.dump(r["confirm"], open(os.path.join(d, "confirm.json"), "w"), indent=1)
         if mode in ("checks", "all"):
             r["checks"] = checks(d)
